@@ -160,6 +160,34 @@ func drawArg(t *rt.Tape, bits int, bigHeader bool) circuit.IOArg {
 
 // richCircuit draws a circuit whose I/O signature uses names, arrays,
 // structs and compound members.
+// hugeCircuit has just over 2^20 (or 2^21) gates - what real programs compile to (the
+// repository's benchmarks list circuits of 5 to 7 million gates), and more than any chunked or
+// doubling buffer holds in its first piece. The gates come from a cheap recurrence, not from
+// the tape (a million tape draws per case would be the cost of the case).
+func hugeCircuit(t *rt.Tape) *circuit.Circuit {
+	nin := 40 + t.Choose(rt.SGen, 40)
+	ng := []int{1<<20 + 1, 1<<20 + 4097, 1<<20 - 1, 1 << 20, 1<<21 + 3}[t.Choose(rt.SGen, 5)]
+	c := &circuit.Circuit{NumGates: ng, NumWires: nin + ng}
+	c.Inputs = circuit.IO{{Name: "a", Type: mustType(fmt.Sprintf("uint%d", nin/2))}, {Name: "b", Type: mustType(fmt.Sprintf("uint%d", nin-nin/2))}}
+	c.Outputs = circuit.IO{{Name: "r", Type: mustType("uint32")}}
+	c.Gates = make([]circuit.Gate, ng)
+	x := uint64(t.Choose(rt.SGen, 1<<30)) | 1
+	ops := []circuit.Operation{circuit.XOR, circuit.AND, circuit.XNOR, circuit.OR, circuit.INV, circuit.XOR, circuit.XOR, circuit.AND}
+	for i := range c.Gates {
+		x = x*6364136223846793005 + 1442695040888963407
+		avail := uint64(nin + i)
+		g := circuit.Gate{Op: ops[x>>60&7], Output: circuit.Wire(nin + i)}
+		g.Input0 = circuit.Wire(avail - 1 - (x>>20)%min(avail, 64))
+		if g.Op != circuit.INV {
+			g.Input1 = circuit.Wire((x >> 8) % avail)
+		}
+		c.Gates[i] = g
+		c.Stats[g.Op]++
+	}
+	rt.Reach("roundtrip.more-than-a-million-gates")
+	return c
+}
+
 func richCircuit(t *rt.Tape) *circuit.Circuit {
 	if t.Choose(rt.SGen, 12) == 0 {
 		// more than a thousand arguments or results: the signature (one text line in
@@ -505,6 +533,9 @@ func (d *fullDisk) Write(p []byte) (int, error) {
 func (w *world) roundTrip(t *rt.Tape, res *core.Result, smp *sample) *core.Failure {
 	format := t.Choose(rt.SGen, 2)
 	c := richCircuit(t)
+	if t.Choose(rt.SGen, 60) == 0 {
+		c = hugeCircuit(t) // round trips only: a damaged-file case parses hundreds of versions of its file
+	}
 	smp.Mode, smp.Format, smp.Circuit = "round-trip", []string{"mpclc", "bristol"}[format], gen.Describe(c)
 	// One case in four: fail, then carry on. Before the circuit of the case is written, the process
 	// writes a circuit (this one or another, in either format) to a destination that fails after a
@@ -556,6 +587,9 @@ func (w *world) roundTrip(t *rt.Tape, res *core.Result, smp *sample) *core.Failu
 	}
 	rmode := t.Choose(rt.SGen, 4)
 	k := []int{1, 2, 3, 7, 100, 4095, 4096, 4097}[t.Choose(rt.SGen, 8)]
+	if len(data) > 1<<20 && (rmode == 1 || rmode == 2 || k < 4095) {
+		rmode, k = 3, 4096 // megabytes are not read byte by byte
+	}
 	smp.Reader = []string{"whole", "1 byte", "random", fmt.Sprintf("at most %d", k)}[rmode]
 	if len(data) > 4096 {
 		res.Reach["file>4KiB"]++
